@@ -120,7 +120,7 @@ func (p *Plan) hook(prog *Prog, kind string) *hookInfo {
 		if sg.Params().Len() < 2 {
 			return nil
 		}
-		h := &hookInfo{name: n.Args[0], site: f.Name()}
+		h := &hookInfo{name: n.Args[0], site: n.Args[0]} // instrumented functions log their name as written with its qualifier
 		_, h.dstPtr = sg.Params().At(0).Type().(*types.Pointer)
 		_, h.srcPtr = sg.Params().At(1).Type().(*types.Pointer)
 		h.extras = sg.Params().Len() > 2
@@ -146,7 +146,7 @@ func EmitCases(prog *Prog, methods []*DriverMethod) string {
 			fmt.Fprintf(&sb, "\t%q\n", k.Path)
 		}
 	}
-	sb.WriteString(")\n\nvar (\n\t_ ext.MyInt\n\t_ odd.OInt\n\t_ lib.LibInt\n\t_ am.AInt\n\t_ bm.BInt\n\t_ oh.Rec\n\t_ = tr.Reset\n\t_ unsafe.Pointer\n)\n\n")
+	sb.WriteString(")\n\nvar (\n\t_ ext.MyInt\n\t_ odd.OInt\n\t_ lib.LibInt\n\t_ am.AInt\n\t_ bm.BInt\n\t_ oh.Rec\n\t_ = hooks.Finalize\n\t_ = hooksv2.Finalize\n\t_ = tr.Reset\n\t_ unsafe.Pointer\n)\n\n")
 	retVars := reRetVar.FindAllStringSubmatch(prog.HomeFuncs+"\n"+prog.SetupFuncs, -1)
 	for _, dm := range methods {
 		emitMethod(&sb, prog, dm, retVars)
@@ -206,6 +206,11 @@ func emitMethod(sb *strings.Builder, prog *Prog, dm *DriverMethod, retVars [][]s
 			return
 		}
 		i, ok := dm.Chosen[l]
+		if ok && i == -2 && len(l.Alts) > 0 {
+			// the tool realised none of the acceptable alternatives: the reference follows the first of them,
+			// so that the wrong value is also seen at run time
+			i = 0
+		}
 		if !ok || i < 0 || i >= len(l.Alts) {
 			// outcome left open by the statements: take whatever the generated function produced (g is its
 			// result), at the field's position, so that a postprocess hook sees the same state in both runs
